@@ -229,6 +229,32 @@ func registerK8sIntrinsics(e *Engine) {
 		var cell value = inst
 		return tuple{&cell, iface{}}
 	})
+	// k8s.io/client-go/util/jsonpath evaluates with reflection. Stub: every expression parses and evaluates to the
+	// JSON text ["stub"] (harnesses that go through it are about what happens around the lookup, not the lookup).
+	e.reg("(*k8s.io/client-go/util/jsonpath.JSONPath).Parse", func(fr *frame, args []value) value {
+		if fr.i.jsonpathText == nil {
+			fr.i.jsonpathText = map[*value]string{}
+		}
+		fr.i.jsonpathText[args[0].(*value)] = fr.i.concretizeStr(args[1])
+		return iface{}
+	})
+	e.reg("(*k8s.io/client-go/util/jsonpath.JSONPath).Execute", func(fr *frame, args []value) value {
+		i := fr.i
+		w := args[1].(iface)
+		m := i.findMethod(w.t, "Write")
+		if m == nil {
+			panic(unsupported("jsonpath.Execute: writer without Write"))
+		}
+		if fr.i.jsonpathText[args[0].(*value)] == "" {
+			return iface{} // an empty template prints nothing
+		}
+		var bs []value
+		for _, c := range []byte(`["stub"]`) {
+			bs = append(bs, c)
+		}
+		callSSA(i, nil, 0, m, []value{w.v, bs}, nil)
+		return iface{}
+	})
 	e.reg("k8s.io/client-go/util/flowcontrol.(*Backoff).GC", noop)
 	e.regPrefix("(*k8s.io/client-go/util/flowcontrol.Backoff).", noop)
 	// metrics recorders
